@@ -125,6 +125,25 @@ def run():
     # the control: the probes must be able to see every capability, through every route
     blind = sorted(i for i in cases if v[i][0] == "blind")
     if blind:
+        # a control that shows nothing may be a host that was too slow on a busy machine: once more, with three
+        # times the time per probe, before the run is given up
+        rp = os.path.join(vlib.scratch(), "replay-blind.ndjson")
+        with open(rp, "w") as f:
+            for i in blind:
+                f.write(json.dumps(cases[i]) + "\n")
+        fresh = os.path.join(vlib.scratch(), "fresh-blind.ndjson")
+        vlib.run_zv1(zv, "sandbox", ["-replay", rp, "-seed", str(vlib.seed()), "-tier", vlib.tier(), "-zygo", zygo, "-repo", vlib.REPO],
+                     out=fresh, env={"ZV_PROBE_S": "60"}, timeout=1500)
+        v2, _ = vlib.validate_trace("SandboxTrace.tla", "SandboxTrace.cfg", fresh, env=env, timeout=2400)
+        c2 = vlib.load_cases(fresh)
+        for i in blind:
+            if i in v2 and i in c2 and v2[i][0] != "blind":
+                cases[i], v[i] = c2[i], v2[i]
+        out.notes.append("%d control cases showed nothing at first and were run again with a longer time per probe" % len(blind))
+        blind = sorted(i for i in cases if v[i][0] == "blind")
+        if any(v[i][0] == "bad" for i in c2 if i in v):
+            raise vlib.Inconclusive("a control case is rejected on re-execution: %s" % [i for i in c2 if v[i][0] == "bad"][:3])
+    if blind:
         raise vlib.Inconclusive("the canaries do not show the capability of a known primitive in the unsandboxed control: %s" % blind[:5])
     if not all(c["inotify"] for c in cases.values()):
         out.notes.append("inotify unavailable: 'open' is inferred from leaks only")
